@@ -37,11 +37,7 @@ def run(ctx):
                 ctx.samples.append(r["sample"])
             if r["trace_runs"]:
                 ok, where, tres = ctx.validate_trace("RunOnceTrace", out, f"trace_{k}_{int(seq)}", consts, invariants=INVS)
-                if not ok:
-                    if tres["invariant"]:
-                        ctx.violation(f"invariant {tres['invariant']} fails on a recorded entry-point race", {"kind": "entry_trace", "trace": out, "at": where})
-                    else:
-                        raise ToolError(f"conformance drift: entry trace not a behaviour of RunOnce.tla: {where}")
+                ctx.trace_verdict(ok, where, tres, "RunOnceTrace", out, consts, INVS, "RunOnce.tla")
                 ctx.traces += r["trace_runs"]
                 ctx.trace_events += r["trace_events"]
                 first = first or out
